@@ -91,11 +91,38 @@ void inst_space(Space_& space)
   dof_mapping.finish();
 }
 
+// one single requested capability (value only / grad only / hess only): the evaluator's own ConfigTraits decides
+// which reference data and trafo data are produced for it
+template<SpaceTags cfg_, typename Space_>
+void inst_space_cfg(Space_& space)
+{
+  typedef typename Space_::TrafoType TrafoType;
+  typedef typename TrafoType::ShapeType ShapeType;
+  typedef typename TrafoType::template Evaluator<ShapeType, DT>::Type TrafoEval;
+  typedef typename Space_::template Evaluator<TrafoEval>::Type SpaceEval;
+  typedef typename SpaceEval::template ConfigTraits<cfg_> SpaceCfg;
+  typename TrafoEval::template ConfigTraits<SpaceCfg::trafo_config>::EvalDataType trafo_data;
+  typename SpaceCfg::EvalDataType space_data;
+  TrafoEval trafo_eval(space.get_trafo());
+  SpaceEval space_eval(space);
+  space_eval(space_data, trafo_data);
+}
+
+template<SpaceTags caps_, typename Space_>
+void inst_space_single(Space_& space)
+{
+  static constexpr SpaceTags all = caps_to_config(caps_);
+  if constexpr (*(all & SpaceTags::value)) inst_space_cfg<SpaceTags::value>(space);
+  if constexpr (*(all & SpaceTags::grad)) inst_space_cfg<SpaceTags::grad>(space);
+  if constexpr (*(all & SpaceTags::hess)) inst_space_cfg<SpaceTags::hess>(space);
+}
+
 template<template<typename> class Element_, SpaceTags caps_, typename Shape_>
 void inst_elem(TrafoT<Shape_>& trafo)
 {
   Element_<TrafoT<Shape_>> space(trafo);
   inst_space<caps_>(space);
+  if constexpr (caps_ != SpaceTags::none) inst_space_single<caps_>(space);
 }
 
 template<typename Variant_, SpaceTags caps_, typename Shape_>
@@ -110,6 +137,14 @@ template<typename Shape_, int cell_dim_>
 void inst_fim()
 {
   volatile int i = Geometry::Intern::FaceIndexMapping<Shape_, cell_dim_, 0>::map(0, 0); (void)i;
+}
+
+// the tag values the checks decode template arguments with
+void inst_tags()
+{
+  volatile int s[] = {int(SpaceTags::value), int(SpaceTags::grad), int(SpaceTags::hess), int(SpaceTags::ref_value), int(SpaceTags::ref_grad), int(SpaceTags::ref_hess)};
+  volatile int t[] = {int(TrafoTags::dom_point), int(TrafoTags::img_point), int(TrafoTags::jac_mat), int(TrafoTags::jac_inv), int(TrafoTags::jac_det), int(TrafoTags::hess_ten), int(TrafoTags::hess_inv)};
+  (void)s; (void)t;
 }
 
 typedef Shape::Simplex<1> S1; typedef Shape::Simplex<2> S2; typedef Shape::Simplex<3> S3;
